@@ -1,0 +1,16 @@
+//go:build verif
+// +build verif
+
+package template
+
+// VerifHook, when non-nil, is called at a few points of contextual analysis and
+// execution with the name of the point and of the template involved. It exists
+// only in builds with the "verif" tag and is used by external monitors to
+// observe and perturb the interleaving of concurrent executions.
+var VerifHook func(point, name string)
+
+func verifHook(point, name string) {
+	if h := VerifHook; h != nil {
+		h(point, name)
+	}
+}
